@@ -354,6 +354,8 @@ def h_run_on_U(init_given):
             self.pred, self.base = pred, base
 
         def sample(self, *, rng=None, k=1):
+            # checked AT the draw: paths through the arbitrary loop iteration end at the back edge and never reach the post-condition
+            S.check('U:run_on:every-draw-uses-the-supplied-generator', S.truth(rng is the_rng), detail='%s sampled without the supplied generator' % self.base)
             if rng is not the_rng:
                 uses.append('sample without the supplied generator')
             x = fresh_atom(self.base)
@@ -408,7 +410,7 @@ def h_run_on_U(init_given):
         ghost['s_before'] = L['s']
         state['phase'] = 'back'
         return ghost['k']
-    spec = CutSpec(inv=inv, havoc=havoc, element=element, exhausted=lambda L: S.eq(ghost['k'], N))
+    spec = CutSpec(inv=inv, havoc=havoc, element=element, exhausted=lambda L: S.eq(ghost['k'], N), iter_src='range(max_steps)')
     import os
     from symrun.driver import ROOT
     f, text, info = cut(pol.Policy.run_on, {0: spec}, dump_dir=os.path.join(ROOT, 'evidence', 'extracted'))
@@ -467,6 +469,7 @@ def h_pomdp_run_on_U(state_given, ag_given):
             self.pred, self.base = pred, base
 
         def sample(self, *, rng=None, k=1):
+            S.check('U:POMDPPolicy.run_on:every-draw-uses-the-supplied-generator', S.truth(rng is the_rng), detail='%s sampled without the supplied generator' % self.base)
             if rng is not the_rng:
                 uses.append('%s sampled without the supplied generator' % self.base)
             x = fresh_atom(self.base)
@@ -523,7 +526,7 @@ def h_pomdp_run_on_U(state_given, ag_given):
         ghost['s_before'], ghost['ag_before'] = L['s'], L['ag']
         state['phase'] = 'back'
         return ghost['k']
-    spec = CutSpec(inv=inv, havoc=havoc, element=element, exhausted=lambda L: S.eq(ghost['k'], N))
+    spec = CutSpec(inv=inv, havoc=havoc, element=element, exhausted=lambda L: S.eq(ghost['k'], N), iter_src='range(max_steps)')
     f, text, info = cut(ppol.POMDPPolicy.run_on, {0: spec}, dump_dir=os.path.join(ROOT, 'evidence', 'extracted'))
     policy = Pol()
     traj = f(policy, POMDP(), initial_state=start, initial_agentstate=ag_start, max_steps=N, rng=the_rng)
